@@ -19,6 +19,14 @@ class ToolError(Exception):
     pass
 
 
+class LibraryHang(Exception):
+    """The driver process burnt STALL_CPU seconds of processor time without finishing another event: a call into the
+    library does not return.  (Processor time of the driver itself, not wall-clock time: a loaded machine cannot trigger it.)"""
+    def __init__(self, msg, info):
+        super().__init__(msg)
+        self.info = info
+
+
 def log(*a):
     print(*a, flush=True)
 
@@ -52,8 +60,61 @@ def workdir(pid):
     return d
 
 
+MAX_CPU_GAP = [0.0]  # largest processor time any driver spent between two events in this run (reported in the evidence)
+STALL_CPU = 420      # seconds of the driver's own processor time without a new event => the library hangs
+
+
+def _cpu_seconds(pid):
+    try:
+        with open(f"/proc/{pid}/stat") as f:
+            fs = f.read().rsplit(")", 1)[1].split()
+        return (int(fs[11]) + int(fs[12])) / os.sysconf("SC_CLK_TCK")     # utime + stime
+    except (OSError, IndexError, ValueError):
+        return None
+
+
+class _R:
+    def __init__(self, rc, out):
+        self.returncode, self.stdout = rc, out
+
+
 def pmv(args, timeout=1800, check=True, env=None, stats=None):
-    r = sh([PMV] + [str(a) for a in args], timeout=timeout, env=env)
+    args = [str(a) for a in args]
+    outfile = args[args.index("--out") + 1] if "--out" in args else None
+    e = dict(os.environ)
+    if env:
+        e.update(env)
+    import threading
+    proc = subprocess.Popen([PMV] + args, env=e, stdout=subprocess.PIPE, stderr=subprocess.STDOUT, text=True)
+    chunks = []
+    th = threading.Thread(target=lambda: chunks.extend(iter(proc.stdout.readline, "")), daemon=True)
+    th.start()
+    t0 = time.time()
+    mark, cpu_at_mark = (-1, -1), 0.0
+    while proc.poll() is None:
+        time.sleep(0.5)
+        size = os.path.getsize(outfile) if outfile and os.path.exists(outfile) else 0
+        cpu = _cpu_seconds(proc.pid)
+        if cpu is not None:
+            MAX_CPU_GAP[0] = max(MAX_CPU_GAP[0], cpu - cpu_at_mark if mark != (-1, -1) else cpu)
+        if (size, len(chunks)) != mark:
+            mark, cpu_at_mark = (size, len(chunks)), (cpu or 0.0)
+        elif cpu is not None and cpu - cpu_at_mark > STALL_CPU:
+            proc.kill(); proc.wait()
+            n_ev = 0
+            last = ""
+            if outfile and os.path.exists(outfile):
+                with open(outfile, errors="replace") as f:
+                    for line in f:
+                        if line.endswith("\n"):
+                            n_ev += 1; last = line
+            raise LibraryHang(f"pmv {' '.join(args[:2])}: no further event after {n_ev} events in {STALL_CPU} s of processor time",
+                              {"driver_args": args, "events_completed": n_ev, "last_completed_event": last[:4000]})
+        if time.time() - t0 > timeout:
+            proc.kill(); proc.wait()
+            raise ToolError("harness command timed out: pmv " + " ".join(args))
+    th.join(timeout=10)
+    r = _R(proc.returncode, "".join(chunks))
     if check and r.returncode != 0:
         log(r.stdout[-3000:])
         raise ToolError("harness command failed: pmv " + " ".join(str(a) for a in args))
@@ -370,6 +431,8 @@ class Check:
         if extra:
             cov.update(extra)
         cov["known_findings_hit"] = self.known_hits
+        cov["driver_max_cpu_s_between_events"] = round(MAX_CPU_GAP[0], 1)
+        cov["driver_hang_threshold_cpu_s"] = STALL_CPU
         cov["further_violations_of_reported_kinds"] = getattr(self, "more", 0)
         cov["info"] = getattr(self, "_ic", {})
         if not cov["samples"]:
